@@ -214,8 +214,8 @@ bool probe_write(uintptr_t a, unsigned char v) {
 }
 
 // ---------------- plan ----------------
-enum OpKind { O_MALLOC = 0, O_ALLOCARRAY, O_NOACCESS, O_READONLY, O_READWRITE, O_PROBE, O_WRITE, O_TAMPER, O_FREE, O_FREE_NULL, O_FORK, O_REINIT, O_NKINDS };
-const char *op_name[O_NKINDS] = {"malloc", "allocarray", "noaccess", "readonly", "readwrite", "probe", "write", "tamper", "free", "free_null", "fork_and_free_in_child", "sodium_init_again"};
+enum OpKind { O_MALLOC = 0, O_ALLOCARRAY, O_NOACCESS, O_READONLY, O_READWRITE, O_PROBE, O_WRITE, O_TAMPER, O_FREE, O_FREE_NULL, O_FORK, O_REINIT, O_MLOCK, O_MUNLOCK, O_NKINDS };
+const char *op_name[O_NKINDS] = {"malloc", "allocarray", "noaccess", "readonly", "readwrite", "probe", "write", "tamper", "free", "free_null", "fork_and_free_in_child", "sodium_init_again", "mlock_user_region", "munlock_user_region"};
 enum { PR_RW = 0, PR_RO = 1, PR_NONE = 2 };
 const char *prot_name[3] = {"readwrite", "readonly", "noaccess"};
 
@@ -421,6 +421,21 @@ struct Exec {
         al.shadow[off] = v;
     }
 
+    // the application locks / unlocks (and thereby wipes) the user region of a guarded allocation itself: legal, and
+    // nothing outside [p, p+size) may change -- the canary in front of it in particular
+    void do_lock(const Op &op) {
+        if (live.empty()) return;
+        Alloc &al = live[op.idx % live.size()];
+        if (op.kind == O_MUNLOCK && al.prot != PR_RW) return; // unlocking wipes the region: it must be writable
+        int rc;
+        { LibScope l; rc = op.kind == O_MLOCK ? sodium_mlock((void *) al.p, al.size) : sodium_munlock((void *) al.p, al.size); }
+        dg.add((uint64_t) rc);
+        res.count(op.kind == O_MLOCK ? "fault.app_mlock_on_guarded_region" : "fault.app_munlock_on_guarded_region");
+        if (al.prot != PR_NONE) for (size_t i = 0; i < al.size; i++) al.shadow[i] = ((unsigned char *) al.p)[i]; // contents after a wipe are whatever they are now
+        cross_check("after-lock-call");
+        if (!res.violated) check_access(al, op.a, "after-lock-call");
+    }
+
     void do_tamper(const Op &op) {
         if (live.empty()) return;
         Alloc &al = live[op.idx % live.size()];
@@ -551,6 +566,7 @@ struct Exec {
             case O_FREE: do_free(op); break;
             case O_FREE_NULL: { LibScope l; sodium_free(nullptr); break; }
             case O_FORK: if (!live.empty()) do_fork(); break;
+            case O_MLOCK: case O_MUNLOCK: do_lock(op); break;
             case O_REINIT: { int rc; { LibScope l; rc = sodium_init(); } dg.add((uint64_t) rc); res.count("fault.sodium_init_again"); cross_check("after-reinit"); break; }
             }
             res.steps++;
@@ -667,7 +683,8 @@ struct C17 {
             else if (c < 70) op.kind = O_PROBE;
             else if (c < 78) op.kind = O_WRITE;
             else if (c < 84) op.kind = O_TAMPER;
-            else if (c < 95) op.kind = O_FREE;
+            else if (c < 93) op.kind = O_FREE;
+            else if (c < 95) op.kind = r.chance(1, 3) ? O_MLOCK : O_MUNLOCK;
             else if (c < 97) op.kind = O_FORK;
             else if (c < 99) op.kind = O_REINIT;
             else op.kind = O_FREE_NULL;
@@ -687,6 +704,7 @@ struct C17 {
             q["op"] = op_name[o.kind];
             if (o.kind == O_MALLOC) q["size"] = o.size;
             else if (o.kind == O_ALLOCARRAY) { q["count"] = o.count; q["size"] = o.size; }
+            else if (o.kind == O_MLOCK || o.kind == O_MUNLOCK) { q["i"] = o.idx; q["a"] = o.a; }
             else if (o.kind != O_FREE_NULL && o.kind != O_FORK && o.kind != O_REINIT) { q["i"] = o.idx; if (o.fault) q["mprotect_fails"] = true; if (o.kind == O_PROBE || o.kind == O_WRITE || o.kind == O_TAMPER || o.kind <= O_READWRITE) { q["a"] = o.a; q["b"] = o.b; } }
             ops.push(q);
         }
